@@ -135,6 +135,7 @@ pub struct Sched {
     pub stuck: bool,
     pub over_budget: bool,
     pub aborted: bool,
+    pub hung: bool,
     pub peek_fn: Option<Box<dyn Fn() -> PeekLite + Send>>,
     pub regions: Vec<(usize, usize, usize, usize)>, // (addr, size, proc, future slot)
     pub stacks: Vec<(usize, usize)>,
@@ -200,6 +201,7 @@ impl Sched {
             stuck: false,
             over_budget: false,
             aborted: false,
+            hung: false,
             peek_fn: None,
             regions: Vec::new(),
             stacks: vec![(0, 0); n],
@@ -751,6 +753,7 @@ pub struct Outcome {
     pub over_budget: bool,
     pub diverged: bool,
     pub follow_div: u32,
+    pub hung: bool,
     pub stuck_threads: Vec<usize>,
     pub stuck_pending: Vec<u32>,
     pub steps: u64,
@@ -776,7 +779,34 @@ pub fn control(n: usize) -> Outcome {
             Some(t) => {
                 s.cur = t;
                 g().cv.notify_all();
-                s = wait_for_baton(CTRL, s);
+                // wait for the baton; a controlled thread that vanished or hangs outside any hook is detected by a
+                // watchdog (no scheduling step for 20 s of wall-clock time)
+                let mut last = s.steps;
+                let mut idle = 0;
+                loop {
+                    if s.cur == CTRL {
+                        break;
+                    }
+                    let (g2, to) = g().cv.wait_timeout(s, std::time::Duration::from_secs(5)).unwrap();
+                    s = g2;
+                    if to.timed_out() {
+                        if s.steps == last {
+                            idle += 1;
+                        } else {
+                            idle = 0;
+                            last = s.steps;
+                        }
+                        if idle >= 4 {
+                            s.hung = true;
+                            s.stuck = true;
+                            s.aborted = true;
+                            break;
+                        }
+                    }
+                }
+                if s.hung {
+                    break;
+                }
             }
             None => {
                 // quiescent: unfreeze, go to the next phase, or declare the execution stuck
@@ -823,6 +853,7 @@ pub fn control(n: usize) -> Outcome {
         over_budget: s.over_budget,
         diverged: s.diverged,
         follow_div: s.follow_div,
+        hung: s.hung,
         stuck_threads,
         stuck_pending,
         steps: s.steps,
